@@ -28,6 +28,10 @@ mod object;
 mod rhythm;
 mod skills;
 
+/// Verification hooks; only present with `--cfg rosu_pp_verif`.
+#[cfg(rosu_pp_verif)]
+pub mod verif;
+
 #[allow(clippy::unreadable_literal)]
 const DIFFICULTY_MULTIPLIER: f64 = 0.084375;
 const RHYTHM_SKILL_MULTIPLIER: f64 = 0.65 * DIFFICULTY_MULTIPLIER;
